@@ -99,10 +99,17 @@ Fixpoint minst_all (h : heap) (c : N) (l : list ((str * rent ppl) * str)) : (hea
                              | SigmaErr t => ((fst hp, N.succ c), SigmaErr t)
                              | Crash t => ((fst hp, N.succ c), Crash t)
                              end
+                | RSeq ds => let hp := mk_def h (renum c (seq_pick c ds)) in
+                             match snd hp with
+                             | Ok p => let r := minst_all (fst hp) (N.succ c) l' in
+                                       (fst r, obind (snd r) (fun x => Ok ((p, snd es) :: x)))
+                             | SigmaErr t => ((fst hp, N.succ c), SigmaErr t)
+                             | Crash t => ((fst hp, N.succ c), Crash t)
+                             end
                 end
   end.
 Definition ent_prio (e : str * rent ppl) : Z :=
-  match snd e with RObj p => p_prio p | RCall d => d_prio d end.
+  match snd e with RObj p => p_prio p | RCall d => d_prio d | RSeq ds => d_prio (seq_pick 0 ds) end.
 Definition resolve (h : heap) (c : N) (t : list (str * rent ppl)) (specs : list str) : (heap * N) * outcome ppl :=
   match resolve_all tab_nm t specs with
   | None => ((h, c), SigmaErr E_NotFound)
